@@ -44,6 +44,8 @@ def class_ops(hist):
     for t in TOKENS:
         ops += [["add", t, False], ["add", t, True], ["remove", t], ["has", t]]
     ops += [["remove", ""], ["has", ""]]          # the empty token: never a member, removing it changes nothing
+    ops += [["remove", " foo "], ["remove", "bar\n"]]    # a token given with surrounding whitespace is that token
+    ops += [["add", "foo-x", "default"]]             # prepend left out: appended
     init = hist[0][1]
     if not (isinstance(init, str) and ("\n" in init or "\r" in init)):
         # HTML() tokens are not added onto a plain value whose tokens are separated by CR/LF: merging
@@ -85,7 +87,11 @@ def class_step(hist):
             tval = bv(t)
             trusted = trusted or isinstance(t, list)
             t = t[1] if isinstance(t, list) else t
-            r = tag.add_class(tval, prepend=prepend)
+            if prepend == "default":
+                r = tag.add_class(tval)
+                prepend = False
+            else:
+                r = tag.add_class(tval, prepend=prepend)
             if r is not tag:
                 v.append(("add_class:return", "add_class did not return the tag itself", {}))
             got = tokens_of(tag)
@@ -104,6 +110,7 @@ def class_step(hist):
             t = op[1]
             old = model
             r = tag.remove_class(t)
+            t = t.strip()
             if r is not tag:
                 v.append(("remove_class:return", "remove_class did not return the tag itself", {}))
             want = None if old is None else ([x for x in old if x != t] or None)
@@ -158,6 +165,7 @@ def style_ops(hist):
     ops = []
     for s in STYLE_OK + STYLE_BAD:
         ops += [["add", s, False], ["add", s, True]]
+    ops += [["add", "k:l;", "default"], ["add", "bad", "default"]]      # prepend left out: appended
     return ops
 
 
@@ -186,8 +194,12 @@ def style_step(hist):
             before = (dict(tag.attrs), [type(x) for x in tag.attrs.values()])
             bad = not text.endswith(";")
             try:
-                r = tag.add_style(bv(s), prepend=prepend)
+                if prepend == "default":
+                    r = tag.add_style(bv(s))
+                else:
+                    r = tag.add_style(bv(s), prepend=prepend)
                 err = None
+                prepend = False if prepend == "default" else prepend
             except ValueError as e:
                 r, err = None, e
             if bad:
